@@ -69,6 +69,32 @@ Theorem C42_bad_hash_nobody :
 Proof. exact rp_bad_hash_nobody. Qed.
 Print Assumptions C42_bad_hash_nobody.
 
+(* Any AddNode history (re-adding a key, replacing the node object, ...) leaves a pool that
+   lists every key of the history exactly once, in key order. *)
+Theorem C42_pool_is_duplicate_free_listing :
+  forall l, NoDup (map rp_key (rp_build l)) /\ forall k, In k (map rp_key (rp_build l)) <-> In k (map rp_key l).
+Proof. exact rp_build_listing. Qed.
+Print Assumptions C42_pool_is_duplicate_free_listing.
+
+(* Node.SetIndex is a field of the (possibly shared) node object: whatever values the objects
+   carry when the scores are sorted (idxs, a recorded input), the answers are those of the
+   canonical positions; the replicator list is the same up to order. *)
+Theorem C42_set_index_irrelevant :
+  forall idxs l hash k key, let pool := rp_build l in
+  rp_is_block_sharder_ix idxs k pool hash key = rp_is_block_sharder k pool hash key.
+Proof. exact rp_set_index_irrelevant. Qed.
+Print Assumptions C42_set_index_irrelevant.
+
+Theorem C42_set_index_irrelevant_with_nodes :
+  forall idxs l hash k key, let pool := rp_build l in
+  match rp_can_shard_with_replicators_ix idxs k pool hash key, rp_can_shard_with_replicators k pool hash key with
+  | Some (b1, t1), Some (b2, t2) => b1 = b2 /\ Permutation t1 t2
+  | None, None => True
+  | _, _ => False
+  end.
+Proof. exact rp_set_index_irrelevant_with. Qed.
+Print Assumptions C42_set_index_irrelevant_with_nodes.
+
 (* Non-vacuity: four sharders added in two orders, one-byte ids, a tie at the cut-off. *)
 Example C42_example :
   let a := {| rp_key := 40; rp_idb := [1] |} in let b := {| rp_key := 10; rp_idb := [3] |} in
